@@ -190,25 +190,27 @@ func encodeAndSplitGSM7Packed(content string, frameKey byte) ([][]byte, datacodi
 	}
 
 	perMsgLength := datacoding.SplitBy153
-	msgCount := ceil(len(contentBytes), perMsgLength)
-	res := make([][]byte, 0, msgCount)
 
-	begin, end := 0, perMsgLength
-	for idx := 0; idx < msgCount; idx++ {
-		if end > len(contentBytes) {
+	// Boundary case: When the last byte of a non-final part happens to be the indicator for an extended character,
+	// cutting at this point would split these two bytes.
+	// To avoid this scenario, the preceding part should pack one byte less, ensuring that 0x1b is placed within the next byte.
+	// Because of this shifting the number of parts can exceed ceil(len/153), so the boundaries are fixed first.
+	ends := make([]int, 0, ceil(len(contentBytes), perMsgLength)+1)
+	for begin := 0; begin < len(contentBytes); {
+		end := begin + perMsgLength
+		if end >= len(contentBytes) {
 			end = len(contentBytes)
-		}
-		if begin >= end {
-			continue
-		}
-
-		// Boundary case: When the last byte of a non-final part happens to be the indicator for an extended character,
-		// cutting at this point would split these two bytes.
-		// To avoid this scenario, the preceding part should pack one byte less, ensuring that 0x1b is placed within the next byte.
-		if idx != msgCount-1 && contentBytes[end-1] == gsm7encoding.EscapeSequence {
+		} else if contentBytes[end-1] == gsm7encoding.EscapeSequence {
 			end--
 		}
+		ends = append(ends, end)
+		begin = end
+	}
+	msgCount := len(ends)
+	res := make([][]byte, 0, msgCount)
 
+	begin := 0
+	for idx, end := range ends {
 		// append UDHI
 		contentByte := make([]byte, 0, (end-begin)+datacoding.UDHILength)
 		contentByte = append(contentByte, longMsgHeader6ByteFrameKey)
@@ -225,7 +227,6 @@ func encodeAndSplitGSM7Packed(content string, frameKey byte) ([][]byte, datacodi
 		res = append(res, contentByte)
 
 		begin = end
-		end += perMsgLength
 	}
 
 	return res, dataCoding, nil
